@@ -18,6 +18,10 @@ separately on larger bounds and the whole pipeline on a smaller one:
 (a3) pipeline: two elements, a hostile character in either Subject; the ``first`` authenticator's
      identity equals what element 0 alone yields and mentions nothing of element 1, and vice versa
      for ``last`` (non-interference + anchoring; no exact principal text, claim count or key names).
+(a4) pipeline, field kinds: two elements holding any mix of Hash/Subject/URI/By/DNS/Cert (concrete marker values,
+     the *structure* is symbolic); same non-interference judgement for ``first`` and ``last``, plus the element the
+     documented ``validate=`` hook receives holds exactly what the selected element rendered - nothing carried over
+     from the other element for any key.
 (b)  arbitrary header strings: nothing but ``AuthFailure`` escapes; missing => ``proxy_required``;
      a header certainly without any element (commas / spaces / tabs) => ``invalid_credential``; anything
      else either authenticates or is refused as ``invalid_credential`` (no other reason).
@@ -55,6 +59,7 @@ _CP3 = pick(0x100, 0x110000)  # pipeline item: quick = latin-1 (what a WSGI serv
 BOUNDS = (
     f"all characters = every code point 0..0x10FFFF; split stage: one hostile value len<={_N1} in any of 6 slots / len<={_N1S} as first Subject, or both Subjects len<={_N1B}/{_N1B - 1}; "
     f"value extraction: len<={_N2} (Subject/Hash/DNS), len<={_N2U} (URI/By); pipeline: hostile suffix len<={_N3} (code points below {_CP3:#x}) in either Subject, quoted (Envoy rendering) and raw after an unquoted value (not , ; or double quote); "
+    f"field kinds: two elements, {'one holding any 1-2 of the 6 kinds Hash/Subject/URI/By/DNS/Cert and the other any one kind, either order' if QUICK else 'each holding any 1-3 of the 6 kinds Hash/Subject/URI/By/DNS/Cert'}; "
     f"arbitrary header: any single character, any latin-1 string len<={_NH}, and every string len<={_NA} over the structural alphabet \" \\ , ; = space % a B; blank headers: len<={_NB} over space/comma/tab"
 )
 OUTSIDE = (
@@ -68,6 +73,8 @@ ASSUMPTIONS = [
     "reference serializer = Envoy convention: every value double-quoted, backslash and double-quote backslash-escaped, ';' between "
     "pairs, ',' between elements; URI/By values additionally render '%' as %25 (the parser URL-decodes Cert/URI/By)",
     "falcon.Request is a fake exposing get_header(name) only",
+    "field-kind items render as Envoy itself does: Subject and Cert double-quoted, Hash/URI/By/DNS bare; values are concrete "
+    "(each names its own element), which kinds each element holds is symbolic",
     "composition argument: _parse_xfcc = split(',') ; split(';') ; per-pair extraction (read off the source) — each stage is decided "
     "separately and the composition only on the smaller pipeline bound",
 ]
@@ -499,6 +506,159 @@ def pipeline_unquoted_value_keeps_elements_apart(slot: bool, n: int, i0: int, i1
             return True
         k += 1
     return _pipeline_ok(slot, n, [i0, i1], quoted=False)
+
+
+# ---------------------------------------------------------------------------
+# (a4) pipeline, structural dimension: every field kind the parser keeps, any mix of kinds per element, both
+#      selection modes.  The hostile-character items above carry Subject only, so state kept across the element loop
+#      for another key (a DNS accumulator, a field map that is not per element) would not show there.
+# ---------------------------------------------------------------------------
+
+_KINDS = ("Hash", "Subject", "URI", "By", "DNS", "Cert")  # every key XfccElement keeps (docs/api/mtls.md)
+_NKIND = len(_KINDS)
+# values: marker of the owning element inside.  Envoy's own rendering: Subject and Cert double-quoted (delimiters and
+# escapes inside), Hash / URI / By / DNS bare (so free of , ; and double quote); URL-decoded keys free of '%'
+_KIND_QUOTED = (False, True, False, False, False, True)
+_KIND_VALUES = {
+    _M0: [_M0 + "0f", "CN=" + _M0 + ',O="A;1"', "u:" + _M0 + "/a", "by:" + _M0, _M0 + ".io", "pem," + _M0 + ';"x"'],
+    _M1: [_M1 + "1e", "O=B\\, 2;x,CN=" + _M1, "u:" + _M1 + "/b", "by:" + _M1, _M1 + ".io", _M1 + "-pem"],
+}
+_DNS_EXTRA = "alt." + _M0 + ".io"  # element 0 renders DNS twice (the one repeatable key), element 1 once
+
+
+def _kind_element(marker: str, present: list) -> tuple[str, dict]:  # type: ignore[type-arg]
+    """(Envoy rendering, rendered fields) of the element owned by ``marker`` holding the kinds flagged in ``present``."""
+    vals = _KIND_VALUES[marker]
+    pairs: list[str] = []
+    want: dict = {"hash": None, "subject": None, "uri": None, "by": None, "dns": (), "cert": None}
+    for k in range(_NKIND):
+        if not present[k]:
+            continue
+        q = _KIND_QUOTED[k]
+        pairs.append(_KINDS[k] + "=" + (_q(vals[k]) if q else vals[k]))
+        if _KINDS[k] == "DNS":
+            want["dns"] = (vals[k],)
+            if marker == _M0:
+                pairs.append("DNS=" + (_q(_DNS_EXTRA) if q else _DNS_EXTRA))
+                want["dns"] = (vals[k], _DNS_EXTRA)
+        else:
+            want[_KINDS[k].lower()] = vals[k]
+    return ";".join(pairs), want
+
+
+def _selected_by(header: str, last: bool, mk):  # type: ignore[no-untyped-def]
+    _SEEN.clear()
+    _AUTH_CAP[last](mk(header))
+    return _SEEN[-1] if _SEEN else None
+
+
+def _element_breach(el, want: dict) -> str | None:  # type: ignore[no-untyped-def,type-arg]
+    """The element handed to validate() against what the selected element rendered: a rendered field reads back as
+    rendered, a field the element does not carry is empty (None / '' / ()) - not filled from anywhere else."""
+    if el is None:
+        return "validate() was not called"
+    for name, wv in want.items():
+        got = getattr(el, name)
+        if name == "dns":
+            if sorted(got) != sorted(wv):  # which names, not their order
+                return f"dns rendered as {list(wv)!r}, validate() sees {list(got)!r}"
+        elif wv is None:
+            if got:
+                return f"no {name} rendered, validate() sees {got!r}"
+        elif got != wv:
+            return f"{name} rendered as {wv!r}, validate() sees {got!r}"
+    return None
+
+
+def _kinds_breach(p0: list, p1: list, mk) -> str | None:  # type: ignore[no-untyped-def,type-arg]
+    """Property level: the identity (default principal/claims, and the element the documented validate= hook gets) that
+    ``first`` yields for ``el0,el1`` is that of el0 alone and says nothing of el1's values; ``last`` likewise for el1."""
+    el0, w0 = _kind_element(_M0, p0)
+    el1, w1 = _kind_element(_M1, p1)
+    header = el0 + "," + el1
+    try:
+        first, last = _AUTH[False](mk(header)), _AUTH[True](mk(header))
+        alone0, alone1 = _AUTH[False](mk(el0)), _AUTH[True](mk(el1))
+        sel0, sel1 = _selected_by(header, False, mk), _selected_by(header, True, mk)
+    except HarnessModelError:
+        raise
+    except Exception as ex:  # noqa: BLE001
+        return f"header {header!r}: {type(ex).__name__}: {ex}"
+    for which, ctx, alone, other, sel, want in (("first", first, alone0, _M1, sel0, w0), ("last", last, alone1, _M0, sel1, w1)):
+        if ctx.authenticated is not True or not _same_identity(ctx, alone):
+            return (f"header {header!r}: select_element={which} -> principal {ctx.principal!r} claims {dict(ctx.claims)!r}; "
+                    f"the selected element alone -> principal {alone.principal!r} claims {dict(alone.claims)!r}")
+        if _mentions(ctx, other):
+            return f"header {header!r}: select_element={which} -> principal {ctx.principal!r} claims {dict(ctx.claims)!r} mention the other element ({other})"
+        bad = _element_breach(sel, want)
+        if bad is not None:
+            return f"header {header!r}: select_element={which}: {bad}"
+    return None
+
+
+def _kind_flags(m: int) -> list:  # type: ignore[type-arg]
+    return [(m // (2 ** k)) % 2 == 1 for k in range(_NKIND)]
+
+
+def _pair_flags(a: int, b: int) -> list:  # type: ignore[type-arg]
+    """Presence flags of the kinds {a, b} (a == b: one kind); comparisons only, so a symbolic a/b costs one fork each."""
+    out = []
+    for k in range(_NKIND):
+        out.append(a == k or b == k)
+    return out
+
+
+def _wide_narrow(a: int, b: int, c: int, wide_last: bool) -> tuple[list, list]:  # type: ignore[type-arg]
+    """One element holds the kinds {a, b}, the other the kind c; ``wide_last`` puts the two-kind element last."""
+    wide, narrow = _pair_flags(a, b), _pair_flags(c, c)
+    return (narrow, wide) if wide_last else (wide, narrow)
+
+
+def _replay_kinds(args: dict) -> str | None:
+    if "m0" in args:
+        return _kinds_breach(_kind_flags(args["m0"]), _kind_flags(args["m1"]), _real_req)
+    p0, p1 = _wide_narrow(args["a"], args["b"], args["c"], bool(args["wide_last"]))
+    return _kinds_breach(p0, p1, _real_req)
+
+
+@cond(q=150, t=300, encoded=ENCODED,
+      bound="two elements as Envoy renders them (Subject/Cert quoted, the rest bare), one holding any one or two of the field kinds %s, the other (before or after it) any one kind; DNS twice in element 0; select first and last" % "/".join(_KINDS),
+      replay=_replay_kinds, signature=lambda args, conc: "C43:pipeline:field-of-other-element-in-identity")
+def pipeline_every_field_kind_stays_in_its_element(a: int, b: int, c: int, wide_last: bool) -> bool:
+    """
+    pre: 0 <= a <= b < _NKIND and 0 <= c < _NKIND
+    post: _
+    """
+    p0, p1 = _wide_narrow(a, b, c, wide_last)
+    return _kinds_breach(p0, p1, lambda h: _Req(True, h)) is None
+
+
+_NKT = 3  # thorough: kinds per element (all 63 x 63 subsets: ~4000 paths at ~0.35 s, beyond the thorough budget)
+
+
+@cond(t=1200, tiers=("thorough",), encoded=ENCODED,  # measured 640 s CPU
+      bound="two elements as Envoy renders them, each holding any non-empty set of <=%d of the field kinds %s (bit k of m0/m1 = kind k present; DNS twice in element 0), select first and last" % (_NKT, "/".join(_KINDS)),
+      replay=_replay_kinds, signature=lambda args, conc: "C43:pipeline:field-of-other-element-in-identity")
+def pipeline_any_mix_of_field_kinds_stays_in_its_element(m0: int, m1: int) -> bool:
+    """
+    pre: 1 <= m0 < 2 ** _NKIND and 1 <= m1 < 2 ** _NKIND
+    post: _
+    """
+    p0 = _kind_flags(m0)
+    n0 = 0
+    for k in range(_NKIND):
+        if p0[k]:
+            n0 += 1
+    if n0 > _NKT:
+        return True
+    p1 = _kind_flags(m1)
+    n1 = 0
+    for k in range(_NKIND):
+        if p1[k]:
+            n1 += 1
+    if n1 > _NKT:
+        return True
+    return _kinds_breach(p0, p1, lambda h: _Req(True, h)) is None
 
 
 # ---------------------------------------------------------------------------
